@@ -1278,3 +1278,31 @@ theorem loop_unclosed_count (tbl : EnvTable) (isB isE : TagName → Bool) (b : T
 
 
 end LiquidVerif.TagAudit
+
+namespace LiquidVerif.TagAudit
+
+/-! ## Tie of the hand-written grammar to the parse methods' source
+
+`Gen/C21Tables.lean` lists, per registered tag, the tag names its `parse` code looks for in the
+token stream (extracted from the source: `parse_block`/`eat_block` end tuples, `expect`, `is_tag`,
+comparisons of `stream.current.value`).  The grammar model must use exactly these names. -/
+
+/-- the names a frame family of the grammar model reacts to: its end tag, its inner tags, and for a
+`doc`-style skip its own name (nesting is an error) -/
+def Frame.parserNames (f : Frame) : List TagName :=
+  f.endT :: (f.familyInners ++ (match f with | .skip n _ true => [n] | _ => []))
+
+def sameSet (a b : List TagName) : Bool := a.all (fun x => b.contains x) && b.all (fun x => a.contains x)
+
+/-- every registered tag: the names extracted from its parse code are exactly the names the grammar
+model gives its frames (block tags), or at most its own name (inline tags) -/
+def parserAgrees (tbl : EnvTable) (pn : List (TagName × List TagName)) : Bool :=
+  tbl.tags.all fun i =>
+    match pn.find? (fun p => p.1 == i.key) with
+    | none => false
+    | some (_, ns) =>
+      match dispatch i with
+      | .openF f => sameSet ns f.parserNames
+      | .inline | .bad => ns.all (fun x => x == i.key)
+
+end LiquidVerif.TagAudit
